@@ -50,11 +50,15 @@ Fixpoint uniq (l : list string) (seen : list string) : list string :=     (* lo.
 Definition find_def (n : string) (s : schema) : option def := find (fun d => d_name d =? n) s.
 Definition field_named (n : string) (fs : list field) : bool := existsb (fun f => f_name f =? n) fs.  (* FieldList.ForName <> nil *)
 
-Inductive merr := ENameCollision | EUnionCollision | ENodeCollision | ERootOverlap | EOverlapNode | EOverlapPartial.
+Inductive merr := ENameCollision | EUnionCollision | ENodeCollision | ERootOverlap | EOverlapNode | EOverlapPartial | ESignature.
 
 Definition nl : string := String (Ascii.ascii_of_nat 10) EmptyString.
 Definition merge_desc (a b : string) : string :=                          (* mergeDescriptions *)
   if a =? "" then b else if b =? "" then a else if a =? b then a else String.append b (String.append nl (String.append nl a)).
+
+(* the Relay entry point, and the field of that name which is already there is one too *)
+Definition node_there (f : field) (fields : list field) : bool :=
+  is_node_field f && match find (fun r => f_name r =? f_name f) fields with Some rf => is_node_field rf | None => false end.
 
 (* mergeRootObjects(a := the later input's root type, b := the accumulated one) *)
 Fixpoint root_fields (acc_fields : list field) (fields : list field) : option (list field) :=
@@ -64,7 +68,7 @@ Fixpoint root_fields (acc_fields : list field) (fields : list field) : option (l
       if is_builtin (f_name f) then root_fields t fields
       (* since fix: the Relay entry point of an earlier service is kept when the later one has none (before: dropped
          whenever it came from the accumulated side, so `node` survived only if the LAST service declared it) *)
-      else if is_node_field f && field_named (f_name f) fields then root_fields t fields
+      else if node_there f fields then root_fields t fields
       else if field_named (f_name f) fields then None
       else root_fields t (fields ++ [f])
   end.
@@ -83,9 +87,27 @@ Fixpoint overlap_scan (mf : list field) (result : list field) (flags : list bool
               else overlap_scan t (result ++ [f]) (flags ++ [field_named (f_name f) result])
   end.
 
+(* isSameFieldSignature: type, argument names, types and defaults *)
+Definition opt_str_eqb (a b : option string) : bool :=
+  match a, b with None, None => true | Some x, Some y => x =? y | _, _ => false end.
+Definition same_sig (a b : field) : bool :=
+  (f_type a =? f_type b) && Nat.eqb (List.length (f_args a)) (List.length (f_args b)) &&
+  forallb (fun x => match find (fun y => a_name y =? a_name x) (f_args b) with
+                    | Some y => (a_type x =? a_type y) && opt_str_eqb (a_default x) (a_default y)
+                    | None => false end) (f_args a).
+(* since the fix: the scan stops with an error at a field that is already there (FieldList.ForName: the first of that
+   name) with another signature *)
+Fixpoint sig_clash (mf : list field) (result : list field) : bool :=
+  match mf with
+  | [] => false
+  | f :: t => (match find (fun r => f_name r =? f_name f) result with Some rf => negb (same_sig rf f) | None => false end)
+              || (if is_id_field f then sig_clash t result else sig_clash t (result ++ [f]))
+  end.
+
 Definition mcf (a b : def) : merr + list field :=
   let result0 := filter (fun f => negb ((d_name a =? "Query") && is_node_field f)) (d_fields a) in
   let mf := filter (fun f => negb (is_builtin (f_name f))) (d_fields b) in
+  if sig_clash mf result0 then inl ESignature else
   let '(result, flags) := overlap_scan mf result0 [] in
   let some := existsb (fun x => x) flags in
   let all := forallb (fun x => x) flags in
